@@ -38,9 +38,9 @@ def _f11(pid, spec, v):
 class ValueProducer(fm.TimeComponent):
     """publishes value(t) = a + b*hours on nout outputs with given units"""
 
-    def __init__(self, name, step, outs):
+    def __init__(self, name, step, outs, static=()):
         super().__init__()
-        self._name, self._step, self.outs = name, step, outs
+        self._name, self._step, self.outs, self.static = name, step, outs, set(static)
         self._time = T0
 
     def _next_time(self):
@@ -48,7 +48,11 @@ class ValueProducer(fm.TimeComponent):
 
     def _initialize(self):
         for k, (u, a, b) in enumerate(self.outs):
-            self.outputs.add(name=f"out{k}", time=self.time, grid=fm.NoGrid(), units=u)
+            if k in self.static:
+                # a constant published once (static output of a time-stepped component)
+                self.outputs.add(name=f"out{k}", time=None, grid=fm.NoGrid(), units=u, static=True)
+            else:
+                self.outputs.add(name=f"out{k}", time=self.time, grid=fm.NoGrid(), units=u)
         self.create_connector()
 
     def val(self, k, t):
@@ -64,7 +68,8 @@ class ValueProducer(fm.TimeComponent):
     def _update(self):
         self._time = self._next_time()
         for k in range(len(self.outs)):
-            self.outputs[f"out{k}"].push_data(self.val(k, self.time), self.time)
+            if k not in self.static:
+                self.outputs[f"out{k}"].push_data(self.val(k, self.time), self.time)
 
     def _finalize(self):
         pass
@@ -92,7 +97,7 @@ class C20(Property):
         kind = ("static", "pull", "wsum")[i % 3]
         if kind == "static":
             reqs = [rnd.choice([None, 0, 1, 5, 100, -3, 7.5]) for _ in range(rnd.randint(3, 12))]
-            return dict(kind=kind, reqs=reqs, static_input=rnd.random() < 0.6, payload=rnd.choice(["scalar", "grid"]),
+            return dict(kind=kind, reqs=reqs, static_chain=rnd.choice([0, 0, 1, 2]), static_input=rnd.random() < 0.6, payload=rnd.choice(["scalar", "grid"]),
                         repush_at=rnd.randint(0, len(reqs)), units=rnd.choice([["m", "m"], ["m", "km"], ["", "1"], ["degC", "K"]]),
                         push_time=rnd.choice([None, None, 3]), memory=rnd.choice([None, None, 0, 1000]), early_push=rnd.random() < 0.4)
         if kind == "pull":
@@ -116,7 +121,7 @@ class C20(Property):
             cstep, cstep2, pstep, fan = rnd.choice([(1, 3, 6), (1, 2, 8), (2, 3, 12)]) + (True,)
         return dict(kind=kind, npairs=npairs, cstep=cstep, cstep2=cstep2, fanout_pull=fan, pstep=pstep, units=units, ncons=ncons, cons_units=rnd.choice([None, "same", "other"]),
                     coef=[[rnd.randint(1, 9), rnd.randint(0, 3), rnd.randint(1, 4), rnd.randint(0, 2)] for _ in range(npairs)], end=rnd.choice([6, 12, 18]),
-                    order=rnd.sample(range(2 + 2), 4), initial_pull=rnd.random() < 0.6)
+                    order=rnd.sample(range(2 + 2), 4), initial_pull=rnd.random() < 0.6, static_weights=rnd.random() < 0.4)
 
     @staticmethod
     def _fanout_spec(rnd):
@@ -152,7 +157,12 @@ class C20(Property):
             return orig(time, target)
 
         o.get_data = spy
-        o >> inp
+        x = o
+        for _ in range(spec.get("static_chain", 0)):
+            x = x >> fm.adapters.Scale(1.0)  # adapters on a static link
+        x >> inp
+        if spec.get("static_chain"):
+            out.count("static_links_through_adapters")
         if spec.get("memory") is not None:
             import os
 
@@ -283,7 +293,10 @@ class C20(Property):
             a, b, wa, wb = spec["coef"][k]
             outs.append((spec["units"][k], float(a), float(b)))
             outs.append(("", float(wa), float(wb) * 0.25))
-        prod = ValueProducer("P", spec["pstep"], outs)
+        static = [2 * k + 1 for k in range(n) if spec.get("static_weights") and spec["coef"][k][3] == 0]  # constant weights as static outputs
+        prod = ValueProducer("P", spec["pstep"], outs, static=static)
+        if static:
+            out.count("wsum_static_weight_outputs_of_a_time_component")
         ws = fm.components.WeightedSum(inputs=names)
         u0 = spec["units"][0]
         cu = {None: None, "same": u0, "other": {"m": "km", "mm/d": "m/s", "": "percent"}.get(u0, u0)}[spec["cons_units"]]
@@ -378,8 +391,8 @@ class C20(Property):
             out.count("wsum_consumers_with_different_steps")
 
     def coverage_gaps(self, counters, tier):
-        need = ["static_requests", "static_republication_refused", "static_input_cases", "pull_compositions", "provider_requests_expected",
-                "provider_calls_checked", "chained_pull_components", "wsum_values_checked", "wsum_consumers_without_connect_time_pull", "wsum_two_consumers", "wsum_consumers_with_different_steps",
+        need = ["static_requests", "static_links_through_adapters", "static_republication_refused", "static_input_cases", "pull_compositions", "provider_requests_expected",
+                "provider_calls_checked", "chained_pull_components", "wsum_values_checked", "wsum_consumers_without_connect_time_pull", "wsum_static_weight_outputs_of_a_time_component", "wsum_two_consumers", "wsum_consumers_with_different_steps",
                 "static_with_memory_limit", "static_refused_early_publications", "static_refused_malformed_publications"]
         return [f"{k} never observed" for k in need if not counters.get(k)]
 
